@@ -7,7 +7,7 @@ MCBytePool == {}
 WithDefaults == {n \in SchemaNames : SchemaOf[n].k = "record" /\ HasDefaults(n)}
 VARIABLES sname, doc
 Init == sname \in WithDefaults /\ doc = [t |-> "none"]
-Next == doc = [t |-> "none"] /\ doc' \in OmitSubsets(sname) \cup EmptySupplied(sname) \cup ZeroSupplied(sname) \cup ZeroOnly(sname) \cup {[t |-> "ctor"]} /\ UNCHANGED sname
+Next == doc = [t |-> "none"] /\ doc' \in OmitSubsets(sname) \cup EmptySupplied(sname) \cup ZeroSupplied(sname) \cup ZeroOnly(sname) \cup AltSupplied(sname) \cup {[t |-> "ctor"]} /\ UNCHANGED sname
 Spec == Init /\ [][Next]_<<sname, doc>>
 Ty == [k |-> "ref", n |-> sname]
 IsDoc == doc # [t |-> "none"] /\ doc # [t |-> "ctor"]
